@@ -1,6 +1,7 @@
 import Nstd.Json.LemmasGen
 import Nstd.Json.LemmasExact
 import Nstd.Json.Props
+import Nstd.Json.LemmasInto
 /-
   Property C15, the tie by TRANSLATION.  `Nstd.Generated.JsonCode` is written on every run by tools/gen_json.py
   (tools/gen_json_cxx.py: tokenizer + parser of a C++ subset + symbolic execution) from the CURRENT
@@ -277,5 +278,22 @@ theorem translated_roundtrip (v : Val) (h : wf v) : translatedParse (toString v 
 
 example : translatedParse [91, 49, 44, 123, 34, 97, 34, 58, 110, 117, 108, 108, 125, 93, 0]
     = .ok (.list [.int 1, .map [([97], .null)]]) := by rfl
+
+/-! ## `parse` into a Variant that already holds a value (ModelInto.lean; driven by the op `parseinto`) -/
+
+/-- a Variant that is neither a non-empty list nor a non-empty map is simply replaced: parsing into it is `parse`, so every
+    theorem about `parse` (total, safe, positions, round trip) holds for it -/
+theorem parse_into_fresh (init : Val) (buf : List Byte) (h1 : initList init = []) (h2 : initMap init = []) :
+    parseInto init buf = parse buf :=
+  parseInto_fresh_eq init buf h1 h2
+
+/-- a Variant that already holds the list `l`, text = an array: same outcome as `parse` (same errors, same positions), the
+    parsed items are appended BEHIND the items of `l` -/
+theorem parse_into_array_appends (l : List Val) (buf : List Byte) (st : St) (hst : readToken 1 buf = .ok st)
+    (h91 : st.tok = 91) :
+    parseInto (.list l) buf = match parse buf with
+      | .ok v => .ok (prependList l v)
+      | e => e :=
+  parseInto_array l buf st hst h91
 
 end Nstd.Json
